@@ -28,6 +28,14 @@ MUTATORS = {'push', 'pop', 'insert', 'remove', '__setitem__', '__setitem_with_op
 D = Decimal
 
 
+class HostList(list):
+    """a host-supplied proper subclass of list"""
+
+
+class HostDict(dict):
+    """a host-supplied proper subclass of dict (no __missing__)"""
+
+
 def host(with_big=True):
     x = [D(1)]
     big = list(range(10050 if with_big else 12))
@@ -36,11 +44,12 @@ def host(with_big=True):
         'dn': {'x': [D(1), D(2)], 'y': {'z': [D(3)]}}, 's': 'hello world', 't': (D(1), 'a'), 'lt': [(D(2), 'b'), (D(1), 'a')], 'e': [], 'de': {},
         'al': [x, x, {'k': x}], 'dd': collections.defaultdict(list, {'a': [D(1)]}), 'dbig': {'log': big, 'n': D(1)}, 'n': D(2), 'z': D(0), 'sep': ', ', 'tr': True, 'no': None,
         'lstr': ['1', '22', '333'], 'mixed': [D(1), 'a', None, [D(2)]],
+        'hl': HostList([D(3), D(1), D(2), D(5)]), 'hls': HostList(['b', 'a']), 'hd': HostDict({'b': D(2), 'a': D(1)}), 'nhl': [HostList([D(2), D(1)]), HostList([D(9), D(8), D(7)])],
     }
 
 
-C_LIST = ['l', 'ls', 'll', 'ld', 'lt', 'e', 'al', 'mixed', 'lstr', 'dbig["log"]', 'dn["x"]', 'll[0]', 'items(d)', 'keys(dn)', '[l, l]']
-C_DICT = ['d', 'dn', 'de', 'dd', 'dbig', 'dn["y"]', 'ld[0]', '{"q": l}']
+C_LIST = ['hl', 'hls', 'nhl', 'nhl[1]', 'l', 'ls', 'll', 'ld', 'lt', 'e', 'al', 'mixed', 'lstr', 'dbig["log"]', 'dn["x"]', 'll[0]', 'items(d)', 'keys(dn)', '[l, l]']
+C_DICT = ['hd', 'd', 'dn', 'de', 'dd', 'dbig', 'dn["y"]', 'ld[0]', '{"q": l}']
 C_STR = ['s', '"a,b,c"', 'sep', 'ls[0]', '""']
 C_ANY = C_LIST + C_DICT + C_STR + ['n', 'z', 'tr', 'no', 't', '1.5']
 FN1 = ['(v => v)', '(v => str(v))', '(v => len(str(v)))', 'str', 'len', '(v => [v])', '(v => v == v)', '(v => 0 - len(str(v)))']
